@@ -106,6 +106,22 @@ func ownerOf(v ssa.Value, depth int) (kind, owner, field string) {
 	return "other", typeName(v.Type()), ""
 }
 
+// mapWrite classifies an update of map m.  A map of the named type Assignments that the function did
+// not make itself is the caller's query object (possibly shared by concurrent retrievals): it is
+// reported under that type whatever struct it was reached through.
+func mapWrite(m ssa.Value) (kind, owner, field string) {
+	kind, owner, field = ownerOf(m, 0)
+	if kind != "local" {
+		if n, ok := m.Type().(*types.Named); ok && n.Obj().Name() == "Assignments" {
+			return kind, "Assignments", "[key]"
+		}
+	}
+	if field == "" {
+		field = "[key]"
+	}
+	return
+}
+
 func collectWrites(prog *ssa.Program, cg *callgraph.Graph, roots []*ssa.Function, inModule func(*ssa.Function) bool) (writes []write, globalsTouched []string, reach []string) {
 	seen := map[*ssa.Function]bool{}
 	var walk func(f *ssa.Function)
@@ -137,10 +153,14 @@ func collectWrites(prog *ssa.Program, cg *callgraph.Graph, roots []*ssa.Function
 				case *ssa.Store:
 					k, o, fld = ownerOf(v.Addr, 0)
 				case *ssa.MapUpdate:
-					k, o, fld = ownerOf(v.Map, 0)
-					if fld == "" {
-						fld = "[key]"
+					k, o, fld = mapWrite(v.Map)
+				case *ssa.Call:
+					// delete(m, k) and clear(m) write the map (clear(s) the slice) like an element store
+					b, ok := v.Call.Value.(*ssa.Builtin)
+					if !ok || (b.Name() != "delete" && b.Name() != "clear") || len(v.Call.Args) == 0 {
+						continue
 					}
+					k, o, fld = mapWrite(v.Call.Args[0])
 				default:
 					continue
 				}
